@@ -48,8 +48,10 @@ def main():
                 "text": m.get("LEVEL_TEXT", m.get("RULE", "")),
                 "design_ref": m.get("DESIGN_REF", f"DESIGN.md section 3, {pid}"),
             },
-            "level_note": m.get("LEVEL_NOTE", "; ".join(m.get("ASSUMPTIONS", []))),
-            "technique": m.get("TECHNIQUE", "runtime monitoring"),
+            "level_note": m.get("LEVEL_NOTE", "; ".join(m.get("ASSUMPTIONS", []))) + (
+                "; thorough tier adds one shard compiled with NUMBA_BOUNDSCHECK=1 (Numba's bounds-check sanitizer: an out-of-range index in a kernel raises instead of corrupting memory)"
+                if m.get("BOUNDSCHECK") else ""),
+            "technique": m.get("TECHNIQUE", "runtime monitoring") + ("; Numba bounds-check sanitizer shard (thorough)" if m.get("BOUNDSCHECK") else ""),
         })
     manifest = {
         "version": 1,
